@@ -20,6 +20,7 @@ import (
 type InjErr struct {
 	Fn, Exec int
 	Inner    error
+	Cycle    bool // Inner is a foreign CYCLE rejection
 }
 
 func (e *InjErr) Error() string {
@@ -30,6 +31,16 @@ func (e *InjErr) Error() string {
 }
 
 func (e *InjErr) Unwrap() error { return e.Inner }
+
+// foreignCycleError: the cycle rejection another container (DeferAcyclicVerification) returns for an Invoke.
+func foreignCycleError() error {
+	sub := dig.New(dig.DeferAcyclicVerification())
+	type ping struct{}
+	type pong struct{}
+	_ = sub.Provide(func(pong) ping { return ping{} })
+	_ = sub.Provide(func(ping) pong { return pong{} })
+	return sub.Invoke(func(ping) {})
+}
 
 // foreignDigError: the error another container returns for an Invoke with a missing dependency.
 func foreignDigError() error {
@@ -533,7 +544,7 @@ func (w *World) body(m *mat, args []reflect.Value) []reflect.Value {
 		}
 		panic(ip)
 	}
-	failed := (fault == "err" || fault == "digerr") && f.HasErr
+	failed := (fault == "err" || fault == "digerr" || fault == "digcycerr") && f.HasErr
 	rec.Toks = map[int][]*Tok{}
 	outs := make([]reflect.Value, len(m.outs))
 	for i, t := range m.outs {
@@ -562,6 +573,10 @@ func (w *World) body(m *mat, args []reflect.Value) []reflect.Value {
 			rec.Err = &InjErr{Fn: f.ID, Exec: exec}
 			if fault == "digerr" {
 				rec.Err.Inner = foreignDigError()
+			}
+			if fault == "digcycerr" {
+				rec.Err.Inner = foreignCycleError()
+				rec.Err.Cycle = true
 			}
 			outs[m.errIdx].Set(reflect.ValueOf(rec.Err))
 		}
